@@ -393,6 +393,13 @@ theorem C02_matmul2d_FT_right_closure_is_transpose [AddLaws S] [MulLaws S] [Comm
     dot (specMatmul a false b true none).vals x.vals = dot b.vals (specMatmul x true a false none).vals :=
   matmul2d_FT_adjoint_right a b x m k n ha hb hx hwb hwx
 
+/-- **`aᵀ · b`, left closure**: for `a : [k,m]`, `b : [k,n]`, delta `x : [m,n]`: `⟨aᵀ·b, x⟩ = ⟨a, b·xᵀ⟩`, the
+    right-hand product being `specMatmul b false x true none` (in `a`'s own `[k,m]` layout). -/
+theorem C02_matmul2d_TF_left_closure_is_transpose [AddLaws S] [MulLaws S] [CommLaws S] (a b x : Tensor S) (m k n : Nat)
+    (ha : a.dims = [k, m]) (hb : b.dims = [k, n]) (hx : x.dims = [m, n]) (hwa : a.WF) (hwx : x.WF) :
+    dot (specMatmul a true b false none).vals x.vals = dot a.vals (specMatmul b false x true none).vals :=
+  matmul2d_TF_adjoint_left a b x m k n ha hb hx hwa hwx
+
 end Corgi
 
 #print axioms Corgi.exHeap_shapeOK
@@ -409,3 +416,4 @@ end Corgi
 #print axioms Corgi.C02_unroll_blocks_closure_is_transpose
 #print axioms Corgi.C02_matmul2d_FT_left_closure_is_transpose
 #print axioms Corgi.C02_matmul2d_FT_right_closure_is_transpose
+#print axioms Corgi.C02_matmul2d_TF_left_closure_is_transpose
